@@ -195,6 +195,8 @@ class Story:
             if bad:
                 t.badtag = True
             if kind == "S":
+                if t.S is not None:
+                    self.errors.append((j, f"task id {tid} started a second time (id reused)"))
                 t.S = j
                 t.arg = rest.strip("()")
             elif kind == "X":
